@@ -14,6 +14,9 @@ from vlib.harness import Check, np_rng, VERIF
 from vlib.monitors import AuditLog
 
 METHODS = ['traditional', 'noconst', 'mean', 'damp', 'nothing']
+# dtypes of the flux array handed to preprocess_spectra (deredshift_forms): double, single, big-endian as read from FITS, and
+# whole counts in signed / unsigned integer dtypes
+FLUX_KINDS = ['i4', 'f4', 'u2', '>f4', 'i2', 'f8', 'i8', '>f8', 'u4']
 
 
 def must_be_zero(ll2, good2, x, binsz):
@@ -49,7 +52,7 @@ class C11(Check):
                    'the must-be-zero clause is one-directional (the code may zero more, e.g. spline rejections and region growth)',
                    'output pixels within 1e-6 pixel (float32 grids: 1e-3 pixel) of a good input pixel are free (boundary band)',
                    'reproduction is asserted only >= 5 input pixels away from any bad pixel or edge, for noise-free inputs of period >= 60 px']
-    REQUIRED_COUNTERS = ('deredshift_objects_with_masked_pixels', 'grid_tiny_cases', 'deredshift_integer_zfit_nonzero', 'good_stretches_shorter_than_the_spline_order', 'canary_sequences', 'reproduce_without_ivar', 'reproduce_integer_flux', 'reproduce_one_sided_windows', 'scaling_noisy_cases', 'scaling_without_ivar', 'tiny_flux_unit_cases', 'calls_1d', 'calls_2d', 'calls_no_ivar', 'must_be_zero_pixels', 'nonzero_ivar_pixels_interp_checked',
+    REQUIRED_COUNTERS = ('deredshift_integer_flux_objects_with_fractional_shift', 'deredshift_without_zfit', 'deredshift_default_output_grid', 'deredshift_flux_not_native_double', 'deredshift_arrays_not_c_contiguous', 'deredshift_objects_with_masked_pixels', 'grid_tiny_cases', 'deredshift_integer_zfit_nonzero', 'good_stretches_shorter_than_the_spline_order', 'canary_sequences', 'reproduce_without_ivar', 'reproduce_integer_flux', 'reproduce_one_sided_windows', 'scaling_noisy_cases', 'scaling_without_ivar', 'tiny_flux_unit_cases', 'calls_1d', 'calls_2d', 'calls_no_ivar', 'must_be_zero_pixels', 'nonzero_ivar_pixels_interp_checked',
                          'allbad_cases', 'disjoint_grid_cases', 'reproduction_cases', 'scaling_cases', 'deredshift_cases',
                          'method_traditional', 'method_noconst', 'method_mean', 'method_damp', 'method_nothing', 'float32_cases',
                          'isolated_good_pixel_cases', 'multi_group_cases')
@@ -77,7 +80,7 @@ class C11(Check):
     def budget(self, tier):
         k = 1 if tier == 'quick' else 60
         return {'single': 260 * k, 'stack2d': 90 * k, 'no_ivar': 40 * k, 'allbad': 20 * k, 'reproduce': 150 * k,
-                'scaling': 80 * k, 'deredshift': 40 * k, 'float32': 40 * k}
+                'scaling': 80 * k, 'deredshift': 40 * k, 'float32': 40 * k, 'deredshift_forms': 36 * k}
 
     # ------------------------------------------------------------------ gen
     def _mask(self, rng, g, n, pat=None):
@@ -256,6 +259,24 @@ class C11(Check):
                 case['omit_ivar'] = rng.random() < 0.5
                 case['c'] = 2.0 ** rng.choice([10, 14, 20, 40, -10, -20, -40, 1, 8])
                 case['unit'] = 1.0
+            return case
+        if cls == 'deredshift_forms':
+            # the de-redshift case again, with the arrays in the forms real data come in: flux as single precision, big-endian
+            # (FITS) or whole detector counts in a signed / unsigned integer dtype, inverse variance in single precision or
+            # big-endian, Fortran-ordered or strided 2-D arrays; without zfit (nothing is shifted); without newloglam (the
+            # output grid is the function's own, derived from the input grid and the shifts)
+            case = self.gen('deredshift', rng, i)
+            case['kind'] = 'deredshift'
+            case['fkind'] = FLUX_KINDS[i % len(FLUX_KINDS)]
+            case['ivkind'] = rng.choice(['f8', 'f8', 'f4', '>f4', '>f8'])
+            case['layout'] = rng.choice(['C', 'C', 'F', 'strided'])
+            if i % 8 == 5:
+                case['zfit_none'] = True
+                case['z'] = [0.0] * len(case['z'])
+                case['zkind'] = 'f8'
+            if i % 5 == 3:
+                case['default_grid'] = True
+                case['loglam2d'] = False
             return case
         if cls == 'deredshift':
             n = rng.randint(300, 600)
@@ -531,9 +552,30 @@ class C11(Check):
             out.count('dead_object_not_first', dead > 0)
         else:
             dead = None
+        # representation of the arrays (deredshift_forms): integer dtypes hold whole counts (feature and continuum scaled by 100,
+        # inverse variance scaled accordingly, so the object is the same one in other units)
+        fkind, ivkind, layout = case.get('fkind', 'f8'), case.get('ivkind', 'f8'), case.get('layout', 'C')
+        if np.dtype(fkind).kind in 'iu':
+            flux = np.rint(flux * 100.0)
+            ivar = ivar / 100.0 ** 2
+        flux = flux.astype(fkind)
+        ivar = ivar.astype(ivkind)
+        if layout == 'F':
+            flux, ivar = np.asfortranarray(flux), np.asfortranarray(ivar)
+        elif layout == 'strided':
+            big_f, big_i = np.zeros((2 * nobj, n), dtype=flux.dtype), np.zeros((2 * nobj, n), dtype=ivar.dtype)
+            big_f[::2], big_i[::2] = flux, ivar
+            flux, ivar = big_f[::2], big_i[::2]
+        out.count('deredshift_flux_' + ('integer' if flux.dtype.kind in 'iu' else 'float'))
+        out.count('deredshift_flux_not_native_double', flux.dtype != np.dtype('f8'))
+        out.count('deredshift_arrays_not_c_contiguous', not flux.flags.c_contiguous)
         zkind = case.get('zkind', 'f8')
         z = np.array(case['z'], dtype=zkind)
-        zarg = z.copy()
+        zarg = None if case.get('zfit_none') else z.copy()
+        out.count('deredshift_without_zfit', zarg is None)
+        out.count('deredshift_default_output_grid', bool(case.get('default_grid')))
+        shifted = [k for k in range(nobj) if k != dead and np.log10(1.0 + float(z[k])) % 1.0 != 0.0]
+        out.count('deredshift_integer_flux_objects_with_fractional_shift', len(shifted) if (flux.dtype.kind in 'iu' and zarg is not None) else 0)
         out.count('deredshift_zfit_' + ('integer' if z.dtype.kind in 'iu' else zkind))
         out.count('deredshift_integer_zfit_nonzero', z.dtype.kind in 'iu' and bool(np.any(z != 0)))
         z = z.astype('f8')
@@ -542,10 +584,23 @@ class C11(Check):
         try:
             with warnings.catch_warnings():
                 warnings.simplefilter('ignore')
-                nf, niv, nll = self.SP1.preprocess_spectra(flux, ivar, loglam=loglam, zfit=zarg, newloglam=ll.copy(), aesthetics=case['method'])
+                nf, niv, nll = self.SP1.preprocess_spectra(flux, ivar, loglam=loglam, zfit=zarg,
+                                                             newloglam=None if case.get('default_grid') else ll.copy(), aesthetics=case['method'])
         finally:
             ev = self.audit.end()
-        out.expect(nf.shape == (nobj, n) and niv.shape == (nobj, n), 'shape', 'preprocess_spectra shapes %s %s' % (nf.shape, niv.shape))
+        if any(e[0].startswith('socket') for e in ev):
+            raise RuntimeError('harness: network access attempted (maskbits fixture not loaded?)')
+        ok = out.expect(isinstance(nll, np.ndarray) and nll.ndim == 1 and nll.size >= 2 and bool(np.all(np.isfinite(nll))), 'shape',
+                        'preprocess_spectra returned the wavelength grid %r' % (getattr(nll, 'shape', None),))
+        if not ok:
+            return
+        m = nll.size
+        if not case.get('default_grid'):
+            out.expect(m == n, 'shape', 'preprocess_spectra returned a grid of %d pixels for a requested grid of %d' % (m, n))
+        ok = out.expect(getattr(nf, 'shape', None) == (nobj, m) and getattr(niv, 'shape', None) == (nobj, m), 'shape',
+                        'preprocess_spectra shapes %s %s for %d objects on a grid of %d' % (getattr(nf, 'shape', None), getattr(niv, 'shape', None), nobj, m))
+        if not ok:
+            return
         out.expect(bool(np.all(np.isfinite(nf)) and np.all(np.isfinite(niv)) and np.all(niv >= 0)), 'finite', 'non-finite / negative output')
         for k in range(nobj):
             if k == dead:
